@@ -18,17 +18,29 @@ package types
 //@ trusted
 //@ func (k BankKeeper) GetAllBalances
 //@ trusted
+// ---- reward bookkeeping ghosts (per denom, in 10^-18 units): what this module moved INTO the distribution
+// module account, and what it told the distribution module to hand out (community pool + validator rewards)
+//@ ghost DistrReceived map[string]int
+//@ ghost DistrAllocated map[string]int
 //@ func (k BankKeeper) SendCoinsFromModuleToModule
 //@ trusted
-//@ modifies Bank
+//@ modifies Bank, DistrReceived
+//@ ensures err != nil ==> DistrReceived == old(DistrReceived)
+//@ ensures err == nil ==> (forall d Str :: DistrReceived[d] == old(DistrReceived)[d] + ext("Coins.AmountOf", amt, d) * 1000000000000000000)
+// the community tax is a fraction in [0, 1] (distribution module parameter validation)
 //@ func (k DistrKeeper) GetCommunityTax
 //@ trusted
+//@ ensures err == nil ==> 0 <= result && result <= 1000000000000000000
 //@ func (k DistrKeeper) FundCommunityPool
 //@ trusted
-//@ modifies Bank, Other
+//@ modifies Bank, Other, DistrAllocated
+//@ ensures err != nil ==> DistrAllocated == old(DistrAllocated)
+//@ ensures err == nil ==> (forall d Str :: DistrAllocated[d] == old(DistrAllocated)[d] + ext("Coins.AmountOf", amount, d) * 1000000000000000000)
 //@ func (k DistrKeeper) AllocateTokensToValidator
 //@ trusted
-//@ modifies Other
+//@ modifies Other, DistrAllocated
+//@ ensures err != nil ==> DistrAllocated == old(DistrAllocated)
+//@ ensures err == nil ==> (forall d Str :: DistrAllocated[d] == old(DistrAllocated)[d] + ext("DecCoins.AmountOf", tokens, d))
 
 //@ func (k BankKeeper) SendCoins
 //@ trusted
